@@ -519,13 +519,28 @@ def run_write(name, v):
         return {"k": "W", "s": name, "v": v, "raised": True, "out": []}, "%s: %s" % (type(e).__name__, str(e)[:80])
 
 
+def _inflated_len(name, b):
+    """leaf fact for CompressedCertificate: how many bytes the stream inflates to (stdlib zlib, no limit; -1: it
+    does not inflate, -2: not applicable)"""
+    if name != "CompressedCertificate":
+        return -2
+    b = bytes(bytearray(b))
+    if len(b) < 12 or b[4:6] != b"\x00\x01":
+        return -2
+    try:
+        return len(zlib.decompressobj(15).decompress(b[12:]))
+    except Exception:
+        return -1
+
+
 def run_parse(name, b):
     ad = A[name]
+    infl = _inflated_len(name, b)
     try:
         o = limited(do_parse, ad, b)
     except BaseException as e:   # noqa
         return {"k": "P", "s": name, "b": list(b), "acc": False, "exc": classify(ad, e), "pv": 0,
-                "rwk": "none"}, "%s: %s" % (type(e).__name__, str(e)[:80])
+                "rwk": "none", "infl": infl}, "%s: %s" % (type(e).__name__, str(e)[:80])
     try:
         pv = clean(do_proj(ad, o))
     except Exception as e:
@@ -534,7 +549,7 @@ def run_parse(name, b):
         rwk = "same" if bytes(o.write()) == bytes(bytearray(b)) else "diff"
     except Exception:
         rwk = "raised"
-    return {"k": "P", "s": name, "b": list(b), "acc": True, "exc": "", "pv": pv, "rwk": rwk}, ""
+    return {"k": "P", "s": name, "b": list(b), "acc": True, "exc": "", "pv": pv, "rwk": rwk, "infl": infl}, ""
 
 
 # --------------------------------------------------------------------------- perturbations (candidates only)
@@ -625,6 +640,20 @@ def cc_values():
     for ctx, entries in (([], []), ([], [([48, 3, 2, 1, 5], [])]), ([7, 8], [([48, 1, 0], [(65399, [1, 2])]), ([48, 0], [])])):
         body = cert13_body(ctx, entries)
         out.append([25, [1, len(body), list(zlib.compress(bytes(body)))]])
+        # the advertised length and what the stream inflates to disagree (RFC 8879 sec. 4: bad_certificate):
+        # too little inside, and streams whose LAST symbol runs past the advertised length and that end right
+        # there (no end-of-block marker, no checksum), so that an inflater stopped at the limit has no input left
+        out.append([25, [1, len(body) + 5, list(zlib.compress(bytes(body)))]])
+        for fill in (258, 40, 3):
+            full = zlib.compress(bytes(body) + bytes([body[-1] if body else 7]) * fill, 9)
+            for cut in (4, 5, 6, 7):
+                st = full[:len(full) - cut]
+                try:
+                    n = len(zlib.decompressobj(15).decompress(st))
+                except Exception:
+                    continue
+                if n > len(body):
+                    out.append([25, [1, len(body), list(st)]])
     return out
 
 
